@@ -25,7 +25,7 @@ def shard_args(tier, seed):
     out = []
     for i in range(NSHARDS):
         out.append({"n": n, "seed": seed * 1000 + i // 2, "order": "local_first" if i % 2 == 0 else "server_first", "pair": i // 2,
-                    "pathmap_cap": 1200 if tier == "quick" else 12000})
+                    "pathmap_cap": 1200 if tier == "quick" else 12000, "small_cache": 40 if (i // 2) % 2 else 0})
     return out
 
 
@@ -69,6 +69,11 @@ def worker(args):
     from lib.pathmodel import PathModel
     from lib import gen
     rec = Rec("C05")
+    if args.get("small_cache"):
+        # harness-side assignment, read by the caches at call time: forces evictions within a short workload
+        from spil.util import caching
+        caching._max_size = int(args["small_cache"])
+        rec.count("small_cache_shards")
     model = SidModel(conf)
     vocab = gen.Vocab(model)
     rng = random.Random(args.get("seed", 0))
@@ -83,6 +88,8 @@ def worker(args):
     pms = {c: PathModel(c) for c in configs}
     pathmap = {}
     seen_paths = {c: {} for c in configs}
+    signature = {c: repr((sorted((n, t.tpl[len(pm.root):]) for n, t in pm.templates.items()), sorted(pm.mapping.items(), key=repr), sorted(pm.defaults.items())))
+                 for c, pm in pms.items()}
 
     def one(s, force_none=False):
         case = {"s": s}
@@ -145,8 +152,11 @@ def worker(args):
             rels[c] = rel
             if len(pathmap) < args.get("pathmap_cap", 1200):
                 pathmap[x.uri + "|" + c] = rel
-        if len(rels) >= 2 and len(set(rels.values())) != 1:
-            rec.violation("relative_paths_differ_between_configs", case, repr(rels))
+        # (only configurations that share templates and vocabulary are expected to differ by the root alone)
+        for sig in set(signature.values()):
+            grp = {c: r for c, r in rels.items() if signature[c] == sig}
+            if len(grp) >= 2 and len(set(grp.values())) != 1:
+                rec.violation("relative_paths_differ_between_configs", case, repr(grp))
         return x
 
     if "replay" in args:
@@ -159,6 +169,7 @@ def worker(args):
         return rec.result()
     with_path = [t for t in model.templates if vocab.usable(t) and any(t.name in pm.templates for pm in pms.values())]
     without = [t for t in model.templates if vocab.usable(t) and t not in with_path]
+    asked = []
     for it in range(args["n"]):
         r = rng.random()
         rec.ev()
@@ -178,6 +189,12 @@ def worker(args):
         else:
             s = rng.choice(["", "bla", "bla/bla", "hamlet/x", "hamlet/a/zz", "*"])
             x = one(s)
+        if it % 7 == 0 and it > 50:
+            # ask an earlier Sid again (its cache entries may have been evicted / overwritten meanwhile)
+            rec.count("re_asked")
+            one(asked[rng.randrange(len(asked))])
+        if r < 0.9:
+            asked.append(s)
         if it % 1999 == 0 and x is not None:
             rec.sample({"sid": s, "paths": {c: (pms[c].rel(x.path(c)) if x.path(c) else None) for c in configs}})
     res = rec.result()
